@@ -21,6 +21,7 @@ EXPLANATION = (
     "rope's string/f-string patterns.  R08.6: a first-match search over the walker's stack of open nodes iterates innermost-first "
     "(reverse of the push order).  R08.7: the parameter-list layout pairs defaults with exactly posonlyargs + args (padded idiom "
     "included) and kw_defaults with kwonlyargs.  R08.8 (=R14.6): the line table that turns the interpreter's line numbers into offsets breaks lines at '\\n' only.  Token search, parenthesis attribution and write-back equality are not decided."
+    ' R08.10: every forward search of the token source starts at the cursor self.offset.'
 )
 ASSUMPTIONS = [
     "language inclusion is decided over ASCII plus representatives of the non-ASCII \\w/\\d/\\s classes",
